@@ -118,7 +118,7 @@ theorem step_refines (c : Cur) (r : Rd) (op : ROp) (h : Abs c r) (hs : r.Small o
     simp only [Rd.step, hn, Cur.step, hle, if_false, hshort]
     rw [take_length_of_le r1 _ hk, h1.rest, take_eq_remaining_take r1 _ hk]
     simp
-  | release =>
+  | release e =>
     refine ⟨{ c with mark := c.pos }, by simp [Rd.step, Cur.step], ?_⟩
     simp only [Rd.step]
     obtain ⟨pre, hS, hm⟩ := h.split
